@@ -8,7 +8,8 @@ Init == x = 0
 Next == UNCHANGED x
 Triples(items, c) == Map(LAMBDA it : <<Start(it), End(it), Val(it)>>, ItemsOf(items, c))
 AnsBad(o, a) ==
-  \/ a.err = 1
+  \/ (a.op = "badchrom" /\ a.err # 1)          \* a chromosome the file does not have: an error, not an answer
+  \/ (a.op # "badchrom" /\ a.err = 1)
   \/ (a.op = "interval" /\ ~IntervalOK(Triples(o.items, a.c), a.s, a.e, a.iv))
   \/ (a.op = "values" /\ ~ValuesOK(Triples(o.items, a.c), a.s, a.e, a.vals))
   \* a zoom query through the same reader: every record of the file's level that intersects the range, in order, nothing beyond it
